@@ -392,7 +392,7 @@ def st_schema_c14(draw):
     count = 'NoGrpAA'
     fields.append({'num': count_num, 'name': count, 'type': 'NUMINGROUP', 'realm': None}); used.add(count_num)
     types = st.sampled_from(['STRING', 'INT', 'CHAR', 'PRICE', 'UTCTIMESTAMP', 'QTY', 'BOOLEAN'])
-    mode = draw(st.sampled_from(['collide2', 'collide2', 'collide3', 'extra_field', 'nested_vs_flat', 'disjoint', 'nested_collide', 'nested_collide', 'nested_required', 'nested_order', 'top_required', 'top_order']))
+    mode = draw(st.sampled_from(['collide2', 'collide2', 'collide3', 'collide_near', 'collide_near', 'extra_field', 'nested_vs_flat', 'disjoint', 'nested_collide', 'nested_collide', 'nested_required', 'nested_order', 'top_required', 'top_order']))
     defs = []            # list of element lists (group bodies)
     collide = False
     if mode in ('nested_collide', 'nested_required', 'nested_order'):
@@ -436,8 +436,9 @@ def st_schema_c14(draw):
             els = extra + [['group', count, draw(st.booleans()), body]]
             msgs.append({'name': ident(k, 'Msg'), 'msgtype': 'G%s' % chr(65 + k), 'cat': 'app', 'els': els})
         return dedupe_messages({'fields': fields, 'comps': {}, 'msgs': msgs, 'family': 'c14', 'mode': mode, 'collide': collide})
-    if mode in ('collide2', 'collide3'):
-        k = 2 if mode == 'collide2' else 3
+    d3 = None
+    if mode in ('collide2', 'collide3', 'collide_near'):
+        k = 2 if mode == 'collide2' else 3 if mode == 'collide3' else draw(st.integers(2, 3))
         for attempt in range(200):
             # the two definitions differ in one low-numbered member by a few low bits (the linear hash then moves the last member by < 2^16) and in the last member
             A = sorted(draw(st.lists(st.integers(1, 4000), min_size=k - 1, max_size=k - 1, unique=True)))
@@ -458,12 +459,29 @@ def st_schema_c14(draw):
                 continue
             d1, d2 = A + [last], B + [last2]
             assert group_hash(d1) == group_hash(d2) and set(d1) != set(d2)
+            if mode == 'collide_near':
+                # further definitions around the shared hash h: member lists prefix + [x] with prefix in {A, B} hash to h + o for x = (last of that prefix) ^ h ^ (h + o).
+                # One to three of them are added to the colliding pair, at offsets 1..3 above h (two of them may collide with each other in turn): the slots the collision probe has to step over (or collide with again)
+                h = group_hash(d1)
+                pairs = draw(st.lists(st.tuples(st.integers(0, 1), st.integers(1, 3)), min_size=1, max_size=3, unique=True))
+                more, ok = [], True
+                for which, o in pairs:
+                    pre, lst = (A, last) if which == 0 else (B, last2)
+                    x = lst ^ h ^ ((h + o) & 0xffffffff)
+                    if x <= max(pre) or x >= 65536 or x in used or x in lead or x in (last, last2) or any(x in m for m in more):
+                        ok = False
+                        break
+                    more.append(pre + [x])
+                    assert group_hash(more[-1]) == (h + o) & 0xffffffff
+                if not ok or not more:
+                    continue
+                d3 = more
             collide = True
             break
         else:
             d1, d2 = [draw(fresh)], None
         if collide:
-            for body in (d1, d2):
+            for body in ((d1, d2) if d3 is None else draw(st.permutations([d1, d2] + d3))):
                 order = draw(st.permutations(body))
                 defs.append([['field', add(t, draw(types)), i == 0 or draw(st.booleans())] for i, t in enumerate(order)])
     if not collide:
@@ -491,7 +509,7 @@ def st_schema_c14(draw):
             b2 = [list(e) for e in b1] + [['field', add(draw(fresh.filter(lambda n: n not in base)), draw(types)), draw(st.booleans())]]
         defs = [b1, b2]
     if draw(st.booleans()):
-        defs.append([list(e) for e in defs[draw(st.integers(0, 1))]])          # a third message sharing one of the two definitions
+        defs.append([list(e) for e in defs[draw(st.integers(0, len(defs) - 1))]])          # a further message sharing one of the definitions
     msgs = []
     for k, body in enumerate(defs):
         extra = [['field', add(draw(fresh), draw(types)), draw(st.booleans())] for _ in range(draw(st.integers(0, 2)))]
